@@ -123,7 +123,7 @@ theorem InvS.set {nt nd nl nt' nd' nl' : Nat} {ms : List Model} {es : List (List
   · intro j b hb
     by_cases hij : i = j
     · subst hij
-      simp [List.getElem?_set, hi] at hb
+      simp [hi] at hb
       subst hb
       refine ⟨fun t ht' => ?_, ?_, fun l hl' => ?_⟩
       · rcases f1 t ht' with h1 | h1
@@ -142,14 +142,14 @@ theorem InvS.set {nt nd nl nt' nd' nl' : Nat} {ms : List Model} {es : List (List
   · intro j k a b ha hb hjk
     by_cases hij : i = j
     · subst hij
-      simp [List.getElem?_set, hi] at ha
+      simp [hi] at ha
       subst ha
       rw [List.getElem?_set_ne hjk] at hb
       exact (key k b hb hjk).1
     · rw [List.getElem?_set_ne hij] at ha
       by_cases hik : i = k
       · subst hik
-        simp [List.getElem?_set, hi] at hb
+        simp [hi] at hb
         subst hb
         exact (key j a ha hij).2
       · rw [List.getElem?_set_ne hik] at hb
@@ -157,7 +157,7 @@ theorem InvS.set {nt nd nl nt' nd' nl' : Nat} {ms : List Model} {es : List (List
   · intro e he t hte j b hb
     by_cases hij : i = j
     · subst hij
-      simp [List.getElem?_set, hi] at hb
+      simp [hi] at hb
       subst hb
       intro ht'
       rcases f1 t ht' with h1 | h1
